@@ -293,8 +293,13 @@ func runProxy(t *testing.T, fx *fixtures, c verifCase, w *bufio.Writer) {
 			case "respond":
 				id := "r" + kv["r"]
 				st, _ := strconv.Atoi(kv["status"])
+				resp := memResponse{status: st, body: []byte("held")}
+				if kv["sse"] == "1" {
+					// the target sends its headers (an event stream), flushes, and keeps the response open
+					resp = memResponse{status: st, hdrOnly: true, headers: http.Header{"Content-Type": []string{"text/event-stream"}}}
+				}
 				for _, mt := range world.net.all() {
-					if mt.respond(id, memResponse{status: st, body: []byte("held")}) {
+					if mt.respond(id, resp) {
 						break
 					}
 				}
@@ -422,7 +427,11 @@ func genProxy(rng *mrand.Rand, n int, tier string, w *bufio.Writer) {
 			case r < 46:
 				deploy(svc, true)
 			case r < 52:
-				fmt.Fprintf(w, "respond r=%d status=%d\n", 1+rng.IntN(rid+1), pick(rng, []int{200, 200, 201, 500}))
+				sse := ""
+				if chance(rng, 25) {
+					sse = " sse=1" // headers of a streamed response only; a later respond (or a drain) ends it
+				}
+				fmt.Fprintf(w, "respond r=%d status=%d%s\n", 1+rng.IntN(rid+1), pick(rng, []int{200, 200, 201, 500}), sse)
 			case r < 60:
 				fmt.Fprintf(w, "release label=%s key=*\n", pick(rng, pxLabels))
 			case r < 68:
